@@ -189,7 +189,7 @@ func runS6(e *Env, cfg *RunCfg) {
 	validN := 0
 	valid := func(p *RawPeer, when string) bool {
 		validN++
-		op := Op{"op": "insert", "table": "Root", "row": map[string]any{"name": fmt.Sprintf("ok-%d", validN), "ia": 500000 + 1000*validN, "ib": fmt.Sprintf("ok%d", validN), "kind": "a"}}
+		op := Op{"op": "insert", "table": "Root", "row": map[string]any{"name": fmt.Sprintf("ok-%d", validN), "ia": 500000 + 1000*validN, "ib": fmt.Sprintf("ok%d", validN), "kind": "a", "oint": validN}}
 		call := p.Call("transact", []any{db, op})
 		if !e.RunUntil(func() bool { return call.Done }) {
 			if !e.Stopped() {
